@@ -30,7 +30,8 @@ def shard_ultra(desc):
 
 
 WITNESSES = [
-    # (p, stream): deterministic witnesses of the two recorded known findings
+    # (p, stream): deterministic witnesses of the recorded known finding (range overflow: first and third stream) and the
+    # regression case of the repaired small-sample midpoint (second stream; fix: 7b9ec69)
     (0.25, [1.7e308, -1.7e308, 1.7e308, -1.7e308, 1.7e308, -1.7e308, 1.7e308]),
     (0.5, [5e-324, 5e-324]),
     (0.25, [1e308, -1e308, 1e308, 1e308, -1e308, 0.0, -1.7e308]),    # the overflowed heights cancel to NaN at the 7th observation
@@ -41,7 +42,17 @@ def witness(binary, variant):
     from common import Case, run_driver
     J = qrun.Judge(variant)
     cases = []
-    for i, (p, xs) in enumerate(WITNESSES):
+    import itertools
+    extra = []
+    if variant == 'release':
+        # every sequence of 2..4 observations over the smallest subnormals x the p values that select a midpoint: the
+        # small-sample estimate must stay inside [min, max] (regression workload of fix: 7b9ec69)
+        tiny = [5e-324, 1e-323, 1.5e-323, -5e-324, 0.0, 2.2250738585072014e-308]
+        for n_ in (2, 3, 4):
+            for seq in itertools.product(tiny, repeat=n_):
+                for p_ in ((0.5,) if n_ == 2 else (1.0 / 3.0, 2.0 / 3.0) if n_ == 3 else (0.25, 0.5, 0.75)):
+                    extra.append((p_, list(seq)))
+    for i, (p, xs) in enumerate(WITNESSES + extra):
         c = Case('witness-%d' % i, 'Quantile', [p], meta={'kind': 'witness'})
         c.op('N', 0)
         marks = []
@@ -52,7 +63,7 @@ def witness(binary, variant):
     logs = run_driver(binary, ''.join(c.text() for c, *_ in cases))
     for c, p, xs, marks in cases:
         qrun.judge_stream_case(J, c, p, xs, marks, 'witness', logs[c.id])
-    J.r15.counters = {'witness_streams': len(cases)}
+    J.r15.counters = {'witness_streams': len(WITNESSES), 'tiny_small_sample_streams': len(extra)}
     J.r15.distinct = set()
     J.r15.samples = []
     return J.r15
